@@ -291,6 +291,8 @@ pub enum ExpressionError<'a> {
     IntegerConversion(#[from] TryFromIntError),
     #[error("integer overflow")]
     IntegerOverflow,
+    #[error("floating-point value is not finite")]
+    FloatNotFinite,
     #[error("type resolution failed: {0}")]
     TypeResolution(#[from] TypeMapError),
     #[error(
